@@ -237,7 +237,7 @@ private:
 
     long get_offset( std::ptrdiff_t pos )
     {
-        if( this->_info._height > 0 )
+        if( !this->_info._top_down )
         {
             // the image is upside down
             return static_cast<long>( ( this->_info._offset
@@ -477,7 +477,7 @@ private:
         std::ptrdiff_t ybeg = 0;
         std::ptrdiff_t yend = this->_info._height;
         std::ptrdiff_t yinc = 1;
-        if( this->_info._height > 0 )
+        if( !this->_info._top_down )
         {
             ybeg = this->_info._height - 1;
             yend = -1;
